@@ -139,9 +139,18 @@ namespace occa {
     }
   }
 
+  // A launch size computed from a loop that is empty at run time is zero or
+  // negative; stored in an unsigned dim entry a negative size has its top bit set
+  static bool hasNegativeEntry(const dim &d) {
+    return (((dim_t) d.x < 0) ||
+            ((dim_t) d.y < 0) ||
+            ((dim_t) d.z < 0));
+  }
+
   bool modeKernel_t::isNoop() const {
     return (
       outerDims.isZero() || innerDims.isZero()
+      || hasNegativeEntry(outerDims) || hasNegativeEntry(innerDims)
     );
   }
 }
